@@ -62,12 +62,12 @@ struct vg_fsg {
 	unsigned fopens, fopen_oks, fcloses;
 	char *fopen_name; int fopen_uid, fopen_gid, fopen_perms;
 	size_t   wtotal;           /* bytes accepted by fwrite on VG_FILE */
-	unsigned mkdirs;  char *mkdir_path;  unsigned mkdir_mode;
-	unsigned exists;  char *exists_path;
+	unsigned mkdirs;  char *mkdir_path;  unsigned mkdir_mode; int mkdir_r;
+	unsigned exists;  char *exists_path; int exists_r;
 	unsigned chowns;  char *chown_path;  int chown_uid, chown_gid;
 	unsigned chmods;  char *chmod_path;  int chmod_perms;
 	unsigned utimes;  char *utime_path;  unsigned utime_ts;
-	unsigned symlinks; char *symlink_path, *symlink_target;
+	unsigned symlinks; char *symlink_path, *symlink_target; int symlink_r;
 	unsigned seq;              /* global operation counter */
 	unsigned chmod_at, chown_at, utime_at;
 } vg_F;
@@ -80,6 +80,7 @@ struct vg_memg {
 	unsigned bad_frees;
 } vg_M;
 int vg_rank[VG_NH];
+int vg_rank_bound;               /* ranks are mathematical integers; the bound only keeps machine arithmetic exact (widened by one after a push) */
 unsigned char vg_where[VG_NH]; /* ghost labelling for the representation invariant (see VG_RI_NODE) */
 int vg_ref[VG_NH];             /* references the READER holds on pool header i (add_ref minus free) */
 unsigned vg_addref_calls, vg_hfree_calls;
@@ -133,7 +134,8 @@ int    vg_refX0;               /* entry value of vg_ref[vg_X] */
 /* Representation invariant of the reader's lists, local form.  vg_where[i] says where the reader holds its
    reference on pool header i: 0 nowhere, 1 directory stack, 2 deferred-symlink list, 3 re-presented current entry.
    vg_rank[] rises by one along each list, is minimal at the head and differs between any two entries with the
-   same label: a witness that the labelled headers form ONE acyclic chain starting at the list head. */
+   same label, and each label has at most one entry without successor and none when its list is empty: a witness
+   that the labelled headers are exactly ONE acyclic chain starting at the list head. */
 #define VG_RI_NODE(i) (VG_HOPT(vg_h[i]._next) && \
 	(vg_where[i] == 0 ==> vg_ref[i] == 0) && \
 	(vg_where[i] == 1 ==> (vg_ref[i] == 1 && vg_h[i].path != NULL && (vg_h[i]._next == NULL || (vg_where[VG_IDX(vg_h[i]._next)] == 1 && vg_rank[VG_IDX(vg_h[i]._next)] == (long) vg_rank[i] + 1)))) && \
@@ -141,8 +143,10 @@ int    vg_refX0;               /* entry value of vg_ref[vg_X] */
 	(vg_where[i] == 3 ==> (vg_ref[i] == 1 && vg_rd.curr_file == &vg_h[i] && \
 	                       (vg_rd.curr_file_type == CURR_FILE_FAKE_DIR || vg_rd.curr_file_type == CURR_FILE_DEFERRED_SYMLINK))) && \
 	vg_where[i] <= 3)
-#define VG_RI_PAIR(i, j) ((vg_where[i] == vg_where[j] && (vg_where[i] == 1 || vg_where[i] == 2)) ==> vg_rank[i] != vg_rank[j])
-#define VG_RI_MIN(i) (vg_rank[i] > -1000000 && vg_rank[i] < 1000000 && \
+#define VG_RI_PAIR(i, j) ((vg_where[i] == vg_where[j] && (vg_where[i] == 1 || vg_where[i] == 2)) ==> \
+	(vg_rank[i] != vg_rank[j] && !(vg_h[i]._next == NULL && vg_h[j]._next == NULL)))
+#define VG_RI_MIN(i) (vg_rank[i] > -vg_rank_bound && vg_rank[i] < vg_rank_bound && \
+	(vg_rd.dir_stack == NULL ==> vg_where[i] != 1) && (vg_rd.deferred_symlinks == NULL ==> vg_where[i] != 2) && \
 	((vg_rd.dir_stack != NULL && vg_where[i] == 1) ==> vg_rank[i] >= vg_rank[VG_IDX(vg_rd.dir_stack)]) && \
 	((vg_rd.deferred_symlinks != NULL && vg_where[i] == 2) ==> vg_rank[i] >= vg_rank[VG_IDX(vg_rd.deferred_symlinks)]))
 #define VG_RI_LISTS (VG_HOPT(vg_rd.dir_stack) && VG_HOPT(vg_rd.deferred_symlinks) && VG_HOPT(vg_rd.curr_file) && VG_HOPT(vg_B.cur) && \
@@ -166,6 +170,79 @@ int    vg_refX0;               /* entry value of vg_ref[vg_X] */
 	((vg_rd.curr_file_type != CURR_FILE_FAKE_DIR && vg_rd.curr_file_type != CURR_FILE_DEFERRED_SYMLINK) ==> \
 	   (vg_where[0] != 3 && vg_where[1] != 3 && vg_where[2] != 3 && vg_where[3] != 3 && vg_where[4] != 3 && vg_where[5] != 3)))
 
+/* the symlink-target arena holds a NUL-terminated string of length vg_tlen */
+#define VG_TGT_OK (vg_tlen < VG_TB && vg_tgt[vg_tlen] == 0 && \
+	__CPROVER_forall { size_t vj_; (vj_ < VG_TB) ==> (vj_ < vg_tlen ==> vg_tgt[vj_] != 0) })
+/* the deferred list before the call is the ghost sequence, sorted, and does not contain the current header (pool header 0) */
+#define VG_DEFERRED_PRE (vg_n < VG_NH && VG_LIST_SEQ(vg_rd.deferred_symlinks) && VG_SEQ_SORTED && VG_SEQ_HAS_NOT(0))
+/* new sequence after inserting header 0 at position K */
+#define VG_NEWSEQ(K, j) ((j) < (K) ? vg_seq[(j) < VG_NH ? (j) : 0] : (j) == (K) ? (size_t) 0 : vg_seq[(j) - 1 < VG_NH ? (j) - 1 : 0])
+/* header 0 was spliced into the deferred list at position vg_k: link vg_J, list end, sorted pair vg_J */
+#define VG_SPLICED (vg_k <= vg_n && \
+	(vg_J == 0 ? vg_rd.deferred_symlinks : vg_h[VG_NEWSEQ(vg_k, vg_J - 1)]._next) == &vg_h[VG_NEWSEQ(vg_k, vg_J)] && \
+	vg_h[VG_NEWSEQ(vg_k, vg_n)]._next == NULL && \
+	(vg_J < vg_n ==> VG_PLEN(VG_NEWSEQ(vg_k, vg_J)) >= VG_PLEN(VG_NEWSEQ(vg_k, vg_J + 1))))
+
+/* metadata of header H applied to path P (U0/O0/M0 = utime/chown/chmod call counts before) */
+#define VG_HAVE(H, F) (((H).extra_flags & (F)) != 0)
+#define VG_META_DONE(H, P, U0, O0, M0) ( \
+	vg_F.utimes == (U0) + ((H).timestamp != 0 ? 1u : 0u) && \
+	((H).timestamp != 0 ==> (vg_F.utime_path == (P) && vg_F.utime_ts == (H).timestamp)) && \
+	vg_F.chowns == (O0) + (VG_HAVE(H, LHA_FILE_UNIX_UID_GID) ? 1u : 0u) && \
+	(VG_HAVE(H, LHA_FILE_UNIX_UID_GID) ==> (vg_F.chown_path == (P) && vg_F.chown_uid == (int) (H).unix_uid && vg_F.chown_gid == (int) (H).unix_gid)) && \
+	vg_F.chmods == (M0) + (VG_HAVE(H, LHA_FILE_UNIX_PERMS) ? 1u : 0u) && \
+	(VG_HAVE(H, LHA_FILE_UNIX_PERMS) ==> (vg_F.chmod_path == (P) && vg_F.chmod_perms == (int) (H).unix_perms && vg_F.chmod_at == vg_F.seq)))
+#define VG_META_NONE(U0, O0, M0) (vg_F.utimes == (U0) && vg_F.chowns == (O0) && vg_F.chmods == (M0))
+
+/* ---- contract of extract_symlink, shared by the @fn clause (dispatcher groups replace the call by it) and by the
+   legacy harness that checks it around the real call.  R result, FN filename argument, T entry type, then entry
+   values: symlink / fopen / fclose counts, reference count and add_ref calls, list head, full-path allocations. */
+#define VG_XS_NAME(FN) ((FN) != NULL ? (FN) : (char *) vg_tmpname)
+#define VG_XS_POST(R, FN, T, SL0, FO0, FC0, REF0, AR0, HEAD0, TA0) ( \
+	/* no name could be built: nothing happens */ \
+	(((FN) == NULL && vg_M.tmp_allocs == (TA0)) ==> ((R) == 0 && vg_F.symlinks == (SL0) && vg_F.fopens == (FO0) && \
+	        vg_rd.deferred_symlinks == (HEAD0) && vg_ref[0] == (REF0) && vg_addref_calls == (AR0))) && \
+	(((FN) != NULL || vg_M.tmp_allocs != (TA0)) ==> ( \
+	  vg_F.symlinks - (SL0) <= 1 && \
+	  /* the link is NOT made now: only for a dangerous link met in the archive; a private placeholder file takes its place */ \
+	  (vg_F.symlinks == (SL0) ==> ((T) == CURR_FILE_NORMAL && (vg_tgt[0] == '/' || (vg_w_set && VG_COMP(vg_w))) && \
+	        vg_F.fopens == (FO0) + 1 && vg_F.fopen_name == VG_XS_NAME(FN) && vg_F.fopen_uid == -1 && vg_F.fopen_gid == -1 && vg_F.fopen_perms == 0600 && \
+	        !vg_F.file_open && vg_F.fcloses == (FC0) + ((R) != 0 ? 1u : 0u) && \
+	        ((R) != 0 ==> (vg_ref[0] == (REF0) + 1 && vg_addref_calls == (AR0) + 1 && VG_SPLICED)) && \
+	        ((R) == 0 ==> (vg_rd.deferred_symlinks == (HEAD0) && vg_ref[0] == (REF0) && vg_addref_calls == (AR0))))) && \
+	  /* the link IS made now: never for a dangerous link met in the archive (any '..' position vg_X); nothing is deferred */ \
+	  (vg_F.symlinks != (SL0) ==> (!((T) == CURR_FILE_NORMAL && (vg_tgt[0] == '/' || VG_COMP(vg_X))) && \
+	        vg_F.symlink_path == VG_XS_NAME(FN) && vg_F.symlink_target == (char *) vg_tgt && (R) == vg_F.symlink_r && \
+	        vg_F.fopens == (FO0) && vg_rd.deferred_symlinks == (HEAD0) && vg_ref[0] == (REF0) && vg_addref_calls == (AR0))))) && \
+	vg_F.mkdirs - vg_F.mkdirs == 0)
+
+/* ---- what extracting the current member (pool header 0, entry type NORMAL) means, by kind of member; shared by the
+   contracts of extract_normal and lha_reader_extract.  Entry values: MK0 mkdir calls, OP0 decoder opens, then as VG_XS_POST. */
+#define VG_IS_LINK0 (VG_IS_DIR(vg_h[0]) && vg_h[0].symlink_target != NULL)
+#define VG_IS_DIRECTORY0 (VG_IS_DIR(vg_h[0]) && vg_h[0].symlink_target == NULL)
+#define VG_XN_POST_FILE(R, FN, MK0, OP0, SL0, FO0, FC0, REF0, AR0, HEAD0, TA0, STK0) ( \
+	/* a file: C07 verdict; no directory or link is made, the lists are not touched */ \
+	(!VG_IS_DIR(vg_h[0]) ==> (((R) != 0 ==> ((VG_D1 || VG_D2) && vg_D.total == vg_h[0].length && vg_D.crc == vg_h[0].crc)) && \
+	        (((R) != 0 && VG_D1) ==> (vg_F.wtotal == vg_h[0].length && vg_D.ended)) && \
+	        vg_F.mkdirs == (MK0) && vg_F.symlinks == (SL0) && !vg_F.file_open && !vg_M.tmp_live && \
+	        vg_rd.deferred_symlinks == (HEAD0) && vg_rd.dir_stack == (STK0) && vg_ref[0] == (REF0))))
+#define VG_XN_POST_LINK(R, FN, MK0, OP0, SL0, FO0, FC0, REF0, AR0, HEAD0, TA0, STK0) ( \
+	/* a symbolic link: contract of extract_symlink; nothing is decoded, no directory is made */ \
+	(VG_IS_LINK0 ==> (VG_XS_POST(R, FN, CURR_FILE_NORMAL, SL0, FO0, FC0, REF0, AR0, HEAD0, TA0) && \
+	        vg_F.mkdirs == (MK0) && VG_D0 && vg_D.opens == (OP0) && vg_rd.dir_stack == (STK0))))
+#define VG_XN_POST_DIR(R, FN, MK0, OP0, SL0, FO0, FC0, REF0, AR0, HEAD0, TA0, STK0) ( \
+	/* a directory: one mkdir; nothing is decoded, no file or link is made; pushed at most once */ \
+	(VG_IS_DIRECTORY0 ==> (vg_F.mkdirs == (MK0) + 1 && vg_F.symlinks == (SL0) && vg_F.fopens == (FO0) && VG_D0 && vg_D.opens == (OP0) && \
+	        vg_rd.deferred_symlinks == (HEAD0) && \
+	        ((vg_F.mkdir_r != 0 && vg_rd.dir_policy != LHA_READER_DIR_PLAIN) ? \
+	            (vg_rd.dir_stack == &vg_h[0] && vg_h[0]._next == (STK0) && vg_ref[0] == (REF0) + 1) : \
+	            (vg_rd.dir_stack == (STK0) && vg_ref[0] == (REF0))))))
+/* facts every call site of the extraction functions has about the current member (pool header 0) */
+#define VG_X_PRE (vg_rd.curr_file == &vg_h[0] && vg_rd.reader == VG_BR && VG_D0 && !vg_F.file_open && !vg_M.tmp_live && \
+	(vg_h[0].symlink_target == NULL || vg_h[0].symlink_target == (char *) vg_tgt) && \
+	(VG_IS_DIRECTORY0 ==> vg_h[0].path != NULL) && \
+	VG_TGT_OK && vg_X < vg_tlen && vg_J <= vg_n && vg_k == 0 && !vg_w_set && VG_DEFERRED_PRE)
+
 /* decoder configurations of the reader */
 #define VG_D0 (vg_rd.decoder == NULL && vg_rd.inner_decoder == NULL && !vg_D.live0 && !vg_D.live1)
 #define VG_D1 (vg_rd.decoder == &vg_dec[0] && vg_rd.inner_decoder == &vg_dec[0] && vg_D.live0 && !vg_D.live1)
@@ -175,7 +252,7 @@ int    vg_refX0;               /* entry value of vg_ref[vg_X] */
 
 /* string predicates for the symlink target arena: vg_tlen = position of the first NUL */
 size_t vg_tlen;
-#define VG_COMP(X) ((X) + 1 < vg_tlen && ((X) == 0 || vg_tgt[(X) - 1] == '/') && vg_tgt[(X)] == '.' && vg_tgt[(X) + 1] == '.' && \
+#define VG_COMP(X) ((X) < vg_tlen && (X) + 1 < vg_tlen && vg_tlen < VG_TB && ((X) == 0 || vg_tgt[(X) - 1] == '/') && vg_tgt[(X)] == '.' && vg_tgt[(X) + 1] == '.' && \
                     (vg_tgt[(X) + 2] == '/' || vg_tgt[(X) + 2] == 0))
 
 #endif
